@@ -144,9 +144,13 @@ def gen_cases(ctx: Ctx):
     n = 12 if ctx.thorough() else 3
     for i in range(n):
         interp, order = interps[i % len(interps)] if ctx.thorough() else [("lsq_poly", 2), ("spline", 3), ("lagrange", 3)][i]
-        cases.append({"idx": i, "interp": interp, "order": order, "nv": int(rng.integers(6, 9)), "nq": int(rng.integers(3, 5)),
+        # node-based interpolants get data that is NOT a low-order polynomial in ln V (law "smooth") and a volume count for
+        # which the thinned node subset is not mirror-symmetric, so a different node choice shows up in the numbers
+        node_based = interp in ("lagrange", "krogh", "pchip", "akima")
+        cases.append({"idx": i, "interp": interp, "order": order, "nv": (8 if node_based else int(rng.integers(6, 9))),
+                      "nq": int(rng.integers(3, 5)),
                       "na": int(rng.integers(2, 4)), "system": [None, "orthorhombic", "trigonal7", "monoclinic"][i % 4],
-                      "lattice": bool(i % 2), "law": ["quadratic", "power"][i % 2]})
+                      "lattice": bool(i % 2), "law": ("smooth" if node_based else ["quadratic", "power"][i % 2])})
     return cases
 
 
